@@ -29,10 +29,12 @@
 package expapi
 
 import (
+	"encoding/base64"
 	"encoding/json"
 	"errors"
 	"fmt"
 	"net/http"
+	"unicode/utf8"
 
 	"github.com/bartventer/httpcache/store/driver"
 	"github.com/bartventer/httpcache/store/internal/registry"
@@ -84,9 +86,17 @@ func list(conn driver.Conn) http.Handler {
 			)
 			return
 		}
+		out := map[string][]string{"keys": keys}
+		for _, key := range keys {
+			if !utf8.ValidString(key) {
+				// JSON replaces the invalid bytes by U+FFFD: such keys are
+				// listed byte-exactly (base64) as well.
+				out["keys_raw"] = append(out["keys_raw"], base64.StdEncoding.EncodeToString([]byte(key)))
+			}
+		}
 		w.Header().Set("Content-Type", "application/json")
 		w.WriteHeader(http.StatusOK)
-		_ = json.NewEncoder(w).Encode(map[string][]string{"keys": keys})
+		_ = json.NewEncoder(w).Encode(out)
 	})
 }
 
